@@ -23,3 +23,10 @@ Proof. exact truncation_refuted. Qed.
 Example C19_premise_satisfiable : NoDup ["a"; "b"] /\ insert_values ["a"; "b"] [[JInt 1%Z; JStr "x"]; [JInt 2%Z; JStr "y"]]
   = JList [JDict [("a", JInt 1%Z); ("b", JStr "x")]; JDict [("a", JInt 2%Z); ("b", JStr "y")]].
 Proof. split; [repeat constructor; simpl; intuition discriminate|vm_compute; reflexivity]. Qed.
+
+(* listed finding C19:column-name-zipped-by-character at model level: with ONE listed column the grammar hands the name over as a bare string,
+   and zip pairs its characters with the values of a longer row; handed over as a list the name is kept *)
+Theorem C19_bare_column_name_refuted :
+  zip_row (py_iter (inl "ab")) [JInt 1%Z; JInt 2%Z] = JDict [("a", JInt 1%Z); ("b", JInt 2%Z)] /\
+  zip_row (py_iter (inr ["ab"])) [JInt 1%Z] = JDict [("ab", JInt 1%Z)].
+Proof. vm_compute. split; reflexivity. Qed.
